@@ -395,6 +395,9 @@ def model_call(call):
     if k == "ctx-store":
         d = D[call[1]]
         return ["ctx-store", d["name"], d["descr"], md_sexp(d)]
+    if k == "ctx-store-as":      # pool entry call[1] stored under the name call[2]
+        d = D[call[1]]
+        return ["ctx-store", call[2], d["descr"], md_sexp(d)]
     if k == "db-store":
         return ["db-store-entry", md_sexp(D[call[1]])]
     if k == "db-meta":
@@ -496,6 +499,10 @@ def real_call(ctxroot, call):
         db = ctx.model_database
         if k == "ctx-store":
             ctx.store_model_entry(pool[call[1]])
+            return ["ok"], None
+        if k == "ctx-store-as":
+            me = pool[call[1]]
+            ctx.store_model_entry(G["ModelEntry"].create(me.model.replace(name=call[2]), modelfit_results=me.modelfit_results))
             return ["ok"], None
         if k == "db-store":
             db.store_model_entry(pool[call[1]])
@@ -1344,6 +1351,67 @@ def probe_after_crash(croot, calls, ci, j, t, bounds, flat, drv, tags):
                             "what": "after the crash C (other dataset, equal datainfo) is stored and takes the data file name of the "
                                     "stale index entry; B (dataset of the interrupted store) is then bound to C's data and is "
                                     "retrieved with the wrong dataset"})
+        shutil.rmtree(copy, ignore_errors=True)
+    # --- 5. names: every linked name points to a key that committed (linked_name_committed)
+    mdir = croot / "ctx" / "models"
+    links = {}
+    try:
+        listed = G["LocalDirectoryContext"]("ctx", croot).list_all_names()
+    except Exception as e:  # noqa
+        listed = []
+        mon.append({"cls": "list-all-names-fails", "what": f"list_all_names raises {type(e).__name__}"})
+    for nm in listed:
+        try:
+            links[nm] = G["keys"].get(os.path.basename(os.readlink(mdir / nm)), "K?")
+        except OSError:
+            links[nm] = None
+    tags.append("linked-names=%d" % len(links))
+    for nm, lk in links.items():
+        if lk is not None and lk not in committed_keys:
+            mon.append({"cls": "name-linked-to-uncommitted-key",
+                        "what": f"list_all_names() lists {nm!r}, linked to key {lk}, whose transaction never committed "
+                                f"(committed keys: {sorted(committed_keys)})"})
+    # --- 6. storing ANOTHER model under the name of the interrupted Context store, then retrieving it by name
+    if cur[0] == "ctx-store":
+        nm = D[cur[1]]["name"]
+        other = next(p for p in ("C", "A", "B") if D[p]["key"] != cur_key and D[p]["dh"] != D[cur[1]]["dh"])
+        copy = fresh_dir("copy")
+        shutil.rmtree(copy)
+        shutil.copytree(croot, copy, symlinks=True)
+        o1, _ = real_call(copy, ["ctx-store-as", other, nm])
+        o2, val = real_call(copy, ["ctx-retrieve", nm]) if o1[0] == "ok" else (None, None)
+        if drv is not None:
+            drv.ask(["push"])
+            m1 = ask(["ctx-store-as", other, nm])
+            m2 = ask(["ctx-retrieve", nm]) if o1[0] == "ok" else None
+            drv.ask(["pop"])
+            if [m1, m2] != [o1, o2]:
+                k.append(f"store {other} under the interrupted name {nm!r}, retrieve by name: code {[o1, o2]} model {[m1, m2]}")
+        tags.append("restore-under-name:" + (o1[0] if o1[0] != "ok" else (o2[0] if o2[0] == "ok" else o2[1])))
+        lk = links.get(nm)
+        in_annotations = flat[j][1] == "ctx/annotations" or ann_truncated
+        if o1[0] != "ok":
+            mon.append({"cls": "later-store-under-interrupted-name-fails",
+                        "what": f"storing {other} under the name {nm!r} of the interrupted store raises {o1[1]}"})
+        else:
+            good = o2[0] == "ok" and not [b for b in same_entry(val[0], val[1], other, False) if not b.startswith("results")]
+            if not good:
+                got = o2[1] if o2[0] == "ok" else o2
+                if lk is not None and lk in committed_keys:
+                    mon.append({"cls": "name-rebind-ignored",
+                                "what": f"{other} stored under {nm!r} after the crash; the name keeps its link to the committed key "
+                                        f"{lk}: retrieve by name gives {got}"})
+                elif lk is not None:
+                    mon.append({"cls": "name-linked-to-uncommitted-key",
+                                "what": f"the interrupted store left {nm!r} linked to key {lk}, which never committed; storing "
+                                        f"{other} under {nm!r} afterwards succeeds but retrieve_model_entry({nm!r}) gives {got}"})
+                elif in_annotations and o2[0] == "err" and o2[1] in ("KeyError", "IndexError"):
+                    mon.append({"cls": "annotation-rewrite-not-atomic",
+                                "what": f"after a crash inside the annotations rewrite, {other} stored under {nm!r} has no readable "
+                                        f"annotation ({o2[1]})"})
+                else:
+                    mon.append({"cls": "later-store-under-interrupted-name-unfaithful",
+                                "what": f"{other} stored under {nm!r} after the crash, retrieve by name gives {got}"})
         shutil.rmtree(copy, ignore_errors=True)
     return k, mon
 
